@@ -29,14 +29,21 @@ for pid in sorted(os.listdir(os.path.join(VERIF, "mutations"))):
 def run(item):
     pid, path = item
     cmd = [os.path.join(VERIF, "bin/sens.py"), pid, path, "--seeds", seeds]
-    if "--no-baseline" in sys.argv:
+    name0 = os.path.basename(path).rsplit(".", 1)[0]
+    known = res.get(pid, {}).get(name0, {}).get("baseline_green")
+    # --reuse-baseline: the repository's own suite does not depend on the harness; keep a status measured earlier
+    reuse = "--reuse-baseline" in sys.argv and known is not None
+    if "--no-baseline" in sys.argv or reuse:
         cmd.append("--no-baseline")
     r = subprocess.run(cmd, stdout=subprocess.PIPE, stderr=subprocess.STDOUT, text=True)
     line = [l for l in r.stdout.splitlines() if l.startswith("{")]
     if not line:
         return pid, os.path.basename(path), {"error": r.stdout[-300:]}
     j = json.loads(line[-1])
-    return pid, j["mutation"], {k: j.get(k) for k in ("baseline_green", "detected", "sigs") if k in j}
+    out_r = {k: j.get(k) for k in ("baseline_green", "detected", "sigs") if k in j}
+    if reuse:
+        out_r["baseline_green"] = known
+    return pid, j["mutation"], out_r
 
 
 with ThreadPoolExecutor(jobs) as ex:
